@@ -92,6 +92,40 @@ fn alternation_instance(n: usize) -> Instance {
     Instance { name: format!("one pattern with {n} alternatives"), cfg: Cfg::single(vec![CPat::new(&kws.join("|"), 5)]), probes, states: n * 6 + 2 }
 }
 
+/// `n` modes chained by transitions: mode m knows `a` (token type m, switches to mode m+1) and
+/// `b` (token type n+m, switches back to mode 0); the token types of a run of a's count the modes.
+fn modes_chain_instance(n: usize) -> Instance {
+    let modes = (0..n)
+        .map(|m| bridge::CMode { name: format!("M{m}"), pats: vec![CPat::new("a", m), CPat::new("b", n + m)], transitions: vec![(m, (m + 1) % n), (n + m, 0)] })
+        .collect();
+    let run = |k: usize| -> (String, Vec<(usize, usize, usize)>) { ("a".repeat(k), (0..k).map(|i| (i % n, i, i + 1)).collect()) };
+    let mut probes = vec![run(n - 1), run(n), run(n + 3)];
+    // a's up to mode 257 (resp. n-1), one b back to mode 0, two more a's
+    for k in [255usize, 256, 257, n - 1] {
+        if k < n {
+            let mut toks: Vec<(usize, usize, usize)> = (0..k).map(|i| (i, i, i + 1)).collect();
+            toks.push((n + k, k, k + 1));
+            toks.push((0, k + 1, k + 2));
+            toks.push((1, k + 2, k + 3));
+            probes.push((format!("{}baa", "a".repeat(k)), toks));
+        }
+    }
+    Instance { name: format!("{n} modes chained by transitions"), cfg: Cfg { modes }, probes, states: 3 * n }
+}
+
+/// Several long patterns in one mode, the long ones not last.
+fn long_patterns_instance() -> Instance {
+    let cfg = Cfg::single(vec![CPat::new("a{600}", 0), CPat::new("b{300}", 1), CPat::new("c{700}x", 2), CPat::new("[abc]", 3)]);
+    let probes = vec![
+        ("a".repeat(600), vec![(0, 0, 600)]),
+        ("b".repeat(300), vec![(1, 0, 300)]),
+        (format!("{}x", "c".repeat(700)), vec![(2, 0, 701)]),
+        ("a".repeat(2), vec![(3, 0, 1), (3, 1, 2)]),
+        (format!("{}{}", "b".repeat(300), "a".repeat(600)), vec![(1, 0, 300), (0, 300, 900)]),
+    ];
+    Instance { name: "a{600}, b{300}, c{700}x, [abc] in one mode".into(), cfg, probes, states: 1605 }
+}
+
 fn copies_instance(n: usize, pat: &str, text: &str) -> Instance {
     // n copies of one pattern with distinct token types: the first one wins
     let l = text.len();
@@ -123,6 +157,9 @@ pub fn run(tier: Tier) -> ! {
         rep_instance(2200, "bc"),
         keywords_instance(1000, 4),
         keywords_ident_instance(1300, 4),
+        modes_chain_instance(300),
+        modes_chain_instance(1100),
+        long_patterns_instance(),
         alternation_instance(300),
         alternation_instance(1200),
         keywords_instance(4200, 4),
@@ -156,7 +193,7 @@ pub fn run(tier: Tier) -> ! {
         let log = scnr::verif::minimizer_take_log();
         scnr::verif::minimizer_recording(false);
         let build_s = t0.elapsed().as_secs_f64();
-        let brief = json!({"instance": ins.name, "patterns": ins.cfg.modes[0].pats.len(), "approx_unminimized_states": ins.states});
+        let brief = json!({"instance": ins.name, "modes": ins.cfg.modes.len(), "patterns": ins.cfg.modes.iter().map(|m| m.pats.len()).sum::<usize>(), "approx_unminimized_states": ins.states});
         match built {
             Err(p) => {
                 viol.lock().unwrap().add("", || Violation { key: String::new(), summary: format!("building {} panicked: {p}", ins.name), replay: brief.clone() });
